@@ -154,3 +154,25 @@ def check_C19(run, replay):
     for r in rows:
         if r["id"] not in cases and r["status"] == "violation":
             run.violation(mismatch_sig("distance")(r, None), {"case": "profiles of two different games", "result": r})
+
+
+# ------------------------------------------------------------------------------------------ C14
+LEVELS["C14"] = "model_checking"
+
+
+def check_C14(run, replay):
+    run.rule = ("TLC builds every entry list of one player up to MAXENTRIES entries / MAXPAIRS (action, weight) pairs over "
+                "existing / foreign / other-player infosets, legal / illegal / repeated actions, weights {-1,0,1,2,3,NaN,+-inf} "
+                "x scale classes {1, 2^-1070, 2^1000, 2^1023}, with the other player's list valid or empty, on two games that "
+                "share names between players and have single-action infosets; every state checks ImportMatchesDeclarative "
+                "(operational fold = documented contract) and is replayed into from_named and from_named_eq; "
+                "distinct by canonical JSON; every case is non-trivial (it exercises the import)")
+    run.assumptions = ["'covered' for a single-action infoset means: mentioned with its action and a valid weight (taken from "
+                       "the code, DESIGN 4 C14 limits)"]
+    if replay:
+        cases, rows = replay_pipeline(run, "import", replay_case(replay)["case"])
+    else:
+        env = {"SLIM": 1, "MAXPAIRS": 2, "MAXENTRIES": 2} if run.tier == "quick" else {"SLIM": 0, "MAXPAIRS": 2, "MAXENTRIES": 2}
+        cases, rows = enumerate_pipeline(run, "MC_Import", "import", env=env, timeout=3000)
+        run.exhaustive = True
+    absorb(run, rows, cases, mismatch_sig("import"))
